@@ -26,6 +26,7 @@ CONSTANTS
   CtcSameName,  \* BOOLEAN: every constraint is called "c1" (readers that name constraints after their text do this)
   CtcGrow,    \* walks only: how many times the last constraint may be grown one level deeper
   CtcEqShape, \* BOOLEAN: also every (p => q) and (r => s) over literals
+  CtcChains,  \* set of <<op, n>>: also the left-nested chain of n literals under op
   CtcArith,   \* BOOLEAN: also comparison / arithmetic / aggregate constraints
   Fmt,        \* "" or a format: emit only models inside that format's fragment
   Fmt2,       \* "" or a second format: ... and inside this one's too (cross-format chains)
@@ -187,7 +188,8 @@ Step ==
   \/ /\ "ctc" \in Axes /\ Len(model.ctcs) < MaxCtc /\ CtcReady
      /\ \E t \in TreesOver(Names(model), CtcBinOps, CtcDepth)
                  \cup (IF CtcArith THEN ArithTrees(Names(model)) ELSE {})
-                 \cup (IF CtcEqShape THEN EqShapeTrees(Names(model)) ELSE {}) : AddConstraint(t)
+                 \cup (IF CtcEqShape THEN EqShapeTrees(Names(model)) ELSE {})
+                 \cup {ChainT(c[1], SetToSeq(Names(model)), c[2]) : c \in CtcChains} : AddConstraint(t)
 
 \* Random larger models without -simulate (which would evaluate - and print - every sibling):
 \* each walk takes ONE seeded random step per state, so a walk is a single behaviour and every
